@@ -28,7 +28,9 @@ def gen_case(chk, i):
         off = 0 if (l == 0 and rng.random() < 0.5) else rng.randint(-400000, 400000)
         looms.append({"name": "h%d.%s" % (l, rng.choice(["a", "node", "x.y"])), "host": "h%d" % l, "off": off})
     nstreams = rng.randint(1, 12)
-    span = rng.choice([5, 50, 2000, 10 ** 6])
+    # spans beyond 2^31 and 2^32 ns matter: anything that narrows the 64-bit
+    # clock difference only misbehaves when stream heads are seconds apart
+    span = rng.choice([5, 50, 2000, 10 ** 6, 3 * 10 ** 9, 5 * 10 ** 9, 10 ** 10, 10 ** 12])
     pool = sorted(rng.randint(10 ** 6, 10 ** 6 + span) for _ in range(rng.randint(2, 40)))
     streams = []
     uid = 0
